@@ -94,27 +94,58 @@ def consumer_table(prog):
     return C, sws[0], switch_table(sws[0])
 
 
-def _boundary(stmts):
-    """sequence of ('f'|'b', {state: value text}) boundary-state settings and recursion markers in a case body"""
-    seq = []
-    cur = {}
+RUNNERS = ("aln_runner", "aln_runner_serial")
+
+
+def _state_value(v, env):
+    """'0' / '-inf' / text of a value stored into a boundary state (v seen through helper parameters)"""
+    from ..inline import resolve, render
+    x, e = resolve(v, env)
+    if const_value(x) == 0 or (x.k == "FloatingLiteral" and x.d.get("v") == 0):
+        return "0"
+    if "FLT_MAX" in x.text() or any("FLT_MAX" in y for z in [x] + list(x.walk()) for y in (z.mac or [])):
+        return "-inf"
+    return render(x, e)
+
+
+def _boundary(prog, C, stmts):
+    """sequence of ('set', 'f'|'b', state, value text) boundary-state settings and ('recurse',) markers in a case body of
+    aln_continue, private helpers (set_states(&m->f[0], ..), aln_descend(m, serial)) inlined"""
+    import re
+    from ..inline import flatten, walk_events
     order = []
-    for s in stmts:
-        for n in s.walk():
-            if n.k == "BinaryOperator" and n.d["op"] == "=":
-                l = n.kids[0].strip()
-                if l.k == "MemberExpr" and l.d.get("rec") == "states" and not l.d.get("arrow"):
-                    arr = l.kids[0].text()
-                    which = "f" if "->f[" in arr else "b" if "->b[" in arr else None
-                    if which:
-                        v = n.kids[1]
-                        val = "0" if const_value(v) == 0 else "-inf" if "FLT_MAX" in v.text() or any("FLT_MAX" in x for x in v.mac) or \
-                            any("FLT_MAX" in y for x in v.walk() for y in x.mac) else v.text()
-                        order.append(("set", which, l.d["field"], val))
-            elif n.k == "IfStmt" and n.child("cond").strip(casts=True).k == "DeclRefExpr" and n.child("cond").strip(casts=True).d["name"] == "serial":
+    for e in flatten(prog, C, stmts, exclude=RUNNERS + ("aln_continue",)):
+        if e[0] == "store":
+            m = re.match(r"^\w+->(f|b)\[0\]\.(a|ga|gb)$", e[1])
+            if m and e[2] is not None:
+                order.append(("set", m.group(1), m.group(2), _state_value(e[2], e[3])))
+        elif e[0] == "call" and e[1] in RUNNERS:
+            order.append(("recurse",))
+        elif e[0] == "if":
+            inner = [x for x in walk_events([e]) if x[0] == "call" and x[1] in RUNNERS]
+            if inner:
                 order.append(("recurse",))
-                break
+        elif e[0] in ("loop", "opaque"):
+            if any(x[0] == "call" and x[1] in RUNNERS for x in walk_events([e])):
+                raise AnalysisBroken("R07a: aln_continue recurses inside a loop / switch; the order of boundary settings is not decided")
     return order
+
+
+def _merge_recursions(prog, C, order, stmts):
+    """a helper `if(serial) return aln_runner_serial(m); return aln_runner(m);` contributes an if-event and a call event for
+    what is one recursion: adjacent markers that stem from the same statement of the case body are one"""
+    from ..inline import flatten
+    per_stmt = []
+    for s in stmts:
+        o = _boundary(prog, C, [s])
+        # collapse runs of recurse markers inside one top-level statement
+        col = []
+        for x in o:
+            if x == ("recurse",) and col and col[-1] == ("recurse",):
+                continue
+            col.append(x)
+        per_stmt += col
+    return per_stmt
 
 
 def r07a(ck, prog):
@@ -180,7 +211,7 @@ def r07a(ck, prog):
             continue
         pair = list(meaning[code].keys())[0]
         fstate, bstate = pair[0][0], pair[1][0]
-        order = _boundary(stmts)
+        order = _merge_recursions(prog, C, _boundary(prog, C, stmts), stmts)
         nrec = sum(1 for x in order if x[0] == "recurse")
         where = site(prog, stmts[0], "case %d" % code)
         first = [x for x in order[:order.index(("recurse",))] if x[0] == "set"] if ("recurse",) in order else []
@@ -212,12 +243,36 @@ def r07a(ck, prog):
             ck.violation("R07a", "R07a/aln_continue/outer-%d" % code, where,
                          "case %d does not restore the outer boundary states (first half f[0]=%s, second half b[0]=%s)" % (code, f1, b2), prog.config)
     # aln_runner saves them in that order
+    from ..inline import flatten, walk_events, render
     for rn in ("aln_runner", "aln_runner_serial"):
         R = prog.fn(rn)
         saved = {}
-        for a in R.body.find("BinaryOperator"):
-            if a.d["op"] == "=" and a.kids[0].strip().text().startswith("input_states["):
-                saved[a.kids[0].strip().text()] = a.kids[1].text()
+        cont = [c for c in R.body.calls("aln_continue")]
+        if len(cont) != 1:
+            raise AnalysisBroken("R07a slot: %s calls aln_continue %d time(s)" % (rn, len(cont)))
+        sarg = cont[0].args[1].strip(casts=True).text()          # the array handed over as input_states
+        outer = []          # call nodes of R through which the current event was inlined
+        save_sites = []
+        for e in walk_events(flatten(prog, R, [R.body], exclude=RUNNERS + ("aln_continue",))):
+            if e[0] == "enter":
+                outer.append(e[2])
+            elif e[0] == "leave":
+                outer.pop()
+            if e[0] == "store" and e[1].startswith(sarg + "[") and e[2] is not None:
+                saved[e[1].replace(sarg + "[", "input_states[", 1)] = render(e[2], e[3])
+                save_sites.append(outer[0] if outer else e[4])
+        # the boundary states are saved before a kernel runs: slot 0 of the f / b arrays is also DP cell 0, which the forward /
+        # backward passes overwrite
+        kern = [c for c in R.body.calls() if c.callee and c.callee.startswith("aln_") and c.callee.split("_")[-1] in ("foward", "backward", "meetup")]
+        for sv in save_sites:
+            sp = R.cfg.position(sv)
+            for kc in kern:
+                kp = R.cfg.position(kc)
+                if sp is not None and kp is not None and R.cfg.reaches(kp, sp):
+                    ck.violation("R07a", "R07a/%s/saved-late" % rn, site(prog, sv),
+                                 "%s saves the boundary states (%s) after %s has run: slot 0 of the f / b arrays is DP cell 0 as well and has "
+                                 "been overwritten, so the two halves inherit states of the finished pass" % (rn, sv.text()[:40], kc.callee), prog.config)
+                    break
         want = {"input_states[0]": "m->f[0].a", "input_states[1]": "m->f[0].ga", "input_states[2]": "m->f[0].gb",
                 "input_states[3]": "m->b[0].a", "input_states[4]": "m->b[0].ga", "input_states[5]": "m->b[0].gb"}
         ck.inst("R07a", site(prog, R, "saved states"), "%s saves %s" % (rn, saved), prog.config)
